@@ -303,9 +303,9 @@ impl Plugin for SomeipPlugin {
                                 let smi = SegmentedMsgInfo {
                                     expected_nr_chunks: start_expected_nr_chunk,
                                     chunk_size,
-                                    raw_buf: Vec::with_capacity(
-                                        chunk_size as usize * start_expected_nr_chunk as usize,
-                                    ),
+                                    // no capacity reserved upfront: a start message is ~100 bytes, the announced
+                                    // size up to 1MB and unfinished transfers are kept. raw_buf grows with the chunks.
+                                    raw_buf: Vec::new(),
                                     inst_id,
                                 };
                                 self.segmented_msgs_map.insert(segment_id, smi);
